@@ -690,14 +690,20 @@ package scheduler
 //@         (old(g.nodes[i].data.State.Status) == NodeStatusRunning && g.nodes[i].data.State.Status == NodeStatusCancel))
 //@   loop 0 invariant forall i int :: 0 <= i && i <= idx ==> g.nodes[i].data.State.Status != NodeStatusRunning
 
+// The words under which a status is shown and recorded (StatusText in the history and the API): each status has its
+// own word, and only a successful run or step is called "finished".
+//@ sfunc run_status_text(s Status) string = ite(s == StatusRunning, "running", ite(s == StatusError, "failed",
+//@        ite(s == StatusCancel, "canceled", ite(s == StatusSuccess, "finished", "not started"))))
+//@ sfunc step_status_text(s NodeStatus) string = ite(s == NodeStatusRunning, "running", ite(s == NodeStatusError, "failed",
+//@        ite(s == NodeStatusCancel, "canceled", ite(s == NodeStatusSuccess, "finished", ite(s == NodeStatusSkipped, "skipped", "not started")))))
 //@ fn (Status).String(s) (r)
-//@   props C08
-//@   trusted
+//@   props C08 C04
 //@   pure
+//@   ensures [C08,C04 run_status_is_shown_under_its_own_name] r == run_status_text(s)
 //@ fn (NodeStatus).String(s) (r)
-//@   props C08
-//@   trusted
+//@   props C08 C02
 //@   pure
+//@   ensures [C08,C02 step_status_is_shown_under_its_own_name] r == step_status_text(s)
 
 //@ ghost obs.nodedata_len int
 //@ fn (*ExecutionGraph).NodeData(g) (ret)
